@@ -82,10 +82,60 @@ func genSharingCase(r *rand.Rand, cfg Cfg) Case {
 	return Case{cfg, ops}
 }
 
+// genInteriorDeleteCase: a multi-level version is persisted and loaded twice through one shared
+// cache; one of the loaded trees then deletes its keys from the highest layer downwards (every
+// such delete merges two children that are cached, shared node objects), the other one is
+// modified afterwards; every retained version is re-read after every operation.
+func genInteriorDeleteCase(r *rand.Rand, cfg Cfg) Case {
+	cfg.Cache = pick(r, []string{"recbig", "recbig", "rectiny"})
+	cfg.BF = pick(r, []uint{2, 3, 4})
+	uni := Universe(r, cfg, 25+r.Intn(50))
+	ops := []string{"new 0", "hsync 0"}
+	m := map[uint64]uint64{}
+	for _, k := range uni {
+		m[k] = uint64(r.Intn(3))
+		ops = append(ops, opIns(0, k, m[k]))
+	}
+	ops = append(ops, "hsync 0", "root 0 0", "hsync 0", "load 0 1", "hsync 1", "load 0 2", "hsync 2", "vcheck")
+	// keys by descending layer
+	ks := append([]uint64{}, uni...)
+	for i := 0; i < len(ks); i++ {
+		for j := i + 1; j < len(ks); j++ {
+			if cfg.RefLayer(ks[j]) > cfg.RefLayer(ks[i]) {
+				ks[i], ks[j] = ks[j], ks[i]
+			}
+		}
+	}
+	nd := 1 + r.Intn(6)
+	if nd > len(ks) {
+		nd = len(ks)
+	}
+	for _, k := range ks[:nd] {
+		ops = append(ops, opDel(1, k, m[k]), "hsync 1", "vcheck")
+	}
+	// now the other loaded tree works on the (shared) nodes next to the deleted keys
+	for i := 0; i < 3+r.Intn(6); i++ {
+		k := pick(r, uni)
+		if r.Intn(3) == 0 {
+			ops = append(ops, opDel(2, k, m[k]))
+		} else {
+			ops = append(ops, opIns(2, k, uint64(5+r.Intn(3))))
+		}
+		ops = append(ops, "hsync 2", "vcheck")
+	}
+	ops = append(ops, "root 2 1", "hsync 2", "pshape 1", "root 1 2", "hsync 1", "pshape 2", "vcheck")
+	return Case{cfg, ops}
+}
+
 func famVersions(f *FamCtx) {
 	debug.SetGCPercent(-1) // object addresses identify objects: nothing may be freed and reused
 	f.Report.Rule = "up to 6 live trees derived from one another by Clone and by MakeRoot+LoadMast, mutations interleaved on any of them, with no cache, a large recording cache and a 2-entry evicting cache; after EVERY operation (a) the reachable object graphs of all trees and the cache are diffed against the previous dump and the resulting alloc/write/publish actions must pass the guards of the Lean heap protocol (`applyAct`), (b) every tree and every persisted root is re-read and compared with its contents at capture; non-trivial = reached height >= 1 and changed height"
-	f.Gen = func() Case { return genSharingCase(f.Rand, RandCfg(f.Rand)) }
+	f.Gen = func() Case {
+		if f.Rand.Intn(4) == 0 {
+			return genInteriorDeleteCase(f.Rand, RandCfg(f.Rand))
+		}
+		return genSharingCase(f.Rand, RandCfg(f.Rand))
+	}
 	n := f.N(150, 6000)
 	for i := 0; i < n; i++ {
 		f.RunTreeCase(f.Gen(), exactRunner, multiLevel)
